@@ -377,6 +377,110 @@ Definition apply_auth (st : astate) (c : aenv * addr * amsg) : astate :=
   match auth_step st env sender m with Ok st' => st' | Err => st end.
 Definition run_auth (st : astate) (cs : list (aenv * addr * amsg)) : astate := fold_left apply_auth cs st.
 
+(* ---------------------------------------------------------------- who owns what *)
+(* The table of the property sentence: the role each message is reserved to, and who
+   holds that role in a given state.  Total over the message types, so a message added
+   to a model without a line here does not compile.  proofs/AuthProofs.v shows that a
+   sender who does not hold the role is refused (`table_sound`). *)
+Inductive role :=
+| RMinterAdmin            (* Config.extension.admin of a vending / open-edition / token-merge minter *)
+| RCollectionCreatorNow   (* base minter: the collection's current creator *)
+| RCollectionMinter       (* cw-ownable owner of the collection *)
+| RProposedMinter         (* cw-ownable pending owner *)
+| RCreator                (* CollectionInfo.creator *)
+| RTokenSender (id : N)   (* owner of the token, approved spender, operator of the owner *)
+| RTokenApprover (id : N) (* owner of the token or operator of the owner *)
+| RWhitelistAdmin         (* member of AdminList.admins *)
+| RWhitelistAdminWhileMutable
+| RSplitsDistributor      (* the admin, or any group member when no admin is set *)
+| RSplitsAdmin
+| RSignedWallet (w : addr)
+| RAnyone                 (* not reserved by the property sentence *)
+| RNobody.                (* no such message / always refused *)
+
+Definition coll_reserved (m : cmsg) : role :=
+  match m with
+  | CTransferNft id _ | CSendNft id _ | CBurn id => RTokenSender id
+  | CApprove id _ | CRevoke id _ => RTokenApprover id
+  | CApproveAll _ | CRevokeAll _ => RAnyone
+  | CMint _ _ | CUpdateStartTradingTime => RCollectionMinter
+  | CUpdateOwnership (TransferOwnership _ _) | CUpdateOwnership RenounceOwnership => RCollectionMinter
+  | CUpdateOwnership AcceptOwnership => RProposedMinter
+  | CExtension => RNobody
+  | CUpdateCollectionInfo _ | CFreezeCollectionInfo | CFreezeTokenMetadata | CUpdateTokenMetadata _
+  | CEnableUpdatable => RCreator
+  end.
+
+Definition minter_reserved (f : mfamily) (k : mkind) : role :=
+  if negb (has_msg f k) then RNobody
+  else match f with
+       | FBase => RCollectionCreatorNow
+       | _ => match k with
+              | KMint | KPurge | KShuffle | KReceiveNft => RAnyone
+              | _ => RMinterAdmin
+              end
+       end.
+
+Definition wl_reserved (w : wlkind) (m : wmsg) : role :=
+  match w with
+  | WImmutable => RNobody
+  | _ => match m with
+         | WOp k => if negb (wl_has w k) then RNobody
+                    else match k with WIncreaseMemberLimit => RAnyone | _ => RWhitelistAdmin end
+         | WUpdateAdmins _ | WFreeze => RWhitelistAdminWhileMutable
+         end
+  end.
+
+Definition reserved_to (st : astate) (m : amsg) : role :=
+  match st, m with
+  | AMinter f _, MM k => minter_reserved f k
+  | AColl k _, CM c => if coll_has k c then coll_reserved c else RNobody
+  | AWl w _, WM x => wl_reserved w x
+  | ASplits _, SM SDistribute => RSplitsDistributor
+  | ASplits _, SM (SUpdateAdmin _) => RSplitsAdmin
+  | AFactory _, FCreateMinter => RAnyone
+  | AAirdrop, AClaim w => RSignedWallet w
+  | _, _ => RNobody
+  end.
+
+Definition holds_role (st : astate) (sender : addr) (r : role) : bool :=
+  match r with
+  | RAnyone => true
+  | RNobody => false
+  | RSignedWallet w => sender =? w
+  | _ =>
+    match st with
+    | AMinter _ s =>
+        match r with
+        | RMinterAdmin => sender =? m_admin s
+        | RCollectionCreatorNow => sender =? m_coll_creator s
+        | _ => false
+        end
+    | AColl _ s =>
+        match r with
+        | RCollectionMinter => opt_is (ow_owner (c_own s)) sender
+        | RProposedMinter => opt_is (ow_pending (c_own s)) sender
+        | RCreator => sender =? c_creator s
+        | RTokenSender id => match find_token (c_tokens s) id with Some t => can_send s t sender | None => false end
+        | RTokenApprover id => match find_token (c_tokens s) id with Some t => can_approve s t sender | None => false end
+        | _ => false
+        end
+    | AWl _ s =>
+        match r with
+        | RWhitelistAdmin => is_admin s sender
+        | RWhitelistAdminWhileMutable => can_modify s sender
+        | _ => false
+        end
+    | ASplits s =>
+        match r with
+        | RSplitsDistributor => can_distribute s sender
+        | RSplitsAdmin => opt_is (sp_admin s) sender
+        | _ => false
+        end
+    | _ => false
+    end
+  end.
+
 (* ---------------------------------------------------------------- instantiation *)
 (* Who may instantiate.  Collections: `WasmQuery::ContractInfo{sender}` must answer, i.e.
    the sender is a contract.  Minters: the sender must answer `Sg2QueryMsg::Params`, i.e.
